@@ -341,6 +341,31 @@ def read_ndjson(path):
     return out
 
 
+def sanitize_ndjson(path, end_ev):
+    """Drivers whose code under test may corrupt the process (signal preemption, faults) can leave a
+    garbled line behind: such a line is evidence that the process broke, not a malformed trace. It is
+    replaced by a `died` record (how = "abort") so that the trace specification judges it as data."""
+    out, bad = [], 0
+    with open(path, errors="replace") as f:
+        for line in f:
+            t = line.strip()
+            if not t:
+                continue
+            try:
+                r = json.loads(t)
+                if not isinstance(r, dict) or "ev" not in r:
+                    raise ValueError
+                out.append(t)
+            except ValueError:
+                bad += 1
+                out.append(json.dumps({"ev": "died", "how": "abort", "msg": "garbled trace record: " + t[:80],
+                                       "scenario": 0, "step": 0, "seq": 0, "th": 999}))
+    if bad:
+        with open(path, "w") as f:
+            f.write("\n".join(out) + "\n")
+    return bad
+
+
 def write_ndjson(path, recs):
     with open(path, "w") as f:
         for r in recs:
